@@ -60,10 +60,11 @@ theorem slice_covers {sm : Msg} {mx ms blk : Nat} {m : Msg} {more : Bool}
       m.code = sm.code ∧ m.tok = sm.tok ∧ m.etag = sm.etag ∧ m.other = sm.other :=
   createSending_slice hms h
 
-/-- … and every aligned slice can be had: asking for block `n0` of a response that reaches that far succeeds. -/
+/-- … and every aligned slice can be had: asking for block `n0` of a response that reaches that far succeeds.  (Since repair
+    F39 a message WITHOUT body has no block at all — `bodyless_request_has_no_block` —, hence `0 < sm.body.length`.) -/
 theorem slice_available {sm : Msg} {mx ms blk s0 n0 : Nat} {m0 : Bool}
     (hdec : decodeBlock blk = .ok (s0, n0, m0)) (hb2 : sendBT sm.code = .b2)
-    (hoff : n0 * sizeN (getSzx s0 mx) ≤ sm.body.length) (hlen : sm.body.length < 4294967296) :
+    (hoff : n0 * sizeN (getSzx s0 mx) ≤ sm.body.length) (hlen : sm.body.length < 4294967296) (hne : 0 < sm.body.length) :
     ∃ m more, createSending sm mx ms blk = some (m, more) := by
   have hs7 : getSzx s0 mx ≤ 7 := Nat.le_trans (getSzx_le_left _ _) (decode_szx_le hdec)
   have hn : n0 < 2 ^ 20 := by
@@ -83,7 +84,7 @@ theorem slice_available {sm : Msg} {mx ms blk s0 n0 : Nat} {m0 : Bool}
   simp only [e0, Bool.false_and, Bool.false_eq_true, if_false, Nat.add_zero]
   have e1 : ¬ (bufLen (getSzx s0 mx) ms > 0 ∧ n0 * sizeN (getSzx s0 mx) > sm.body.length) := by omega
   have e2 : ¬ sm.body.length ≥ 4294967296 := by omega
-  rw [if_neg e1, if_neg e2]
+  rw [if_neg (bodyless_test_neg hne), if_neg e1, if_neg e2]
   rw [Nat.mul_div_cancel _ (sizeN_pos hs7)]
   rw [Props.C19.encode_total _ _ _ hs7 (by omega) (by omega)]
   exact ⟨_, _, rfl⟩
@@ -445,7 +446,8 @@ theorem faultfree_progress_block1 (cfg : Cfg) (r : Msg) (hs : cfg.szx < 7) (hpp 
    fun exp now rcv app k h1 h2 h3 h4 => sender_round cfg r exp now rcv app k hs hpp htok h1 h2 h3 h4⟩
 
 /-- **faultfree_progress_block2** (response download, equal non-BERT exponents).  One round for a symbolic block index
-    `j`: (1) the responder, with the response cached, answers the request for block `j` with block `j` (and drops the
+    `j`: (1) the responder, with the response cached — a response WITH a body: since repair F39 a cached message without
+    body has no block, `bodyless_request_has_no_block` —, answers the request for block `j` with block `j` (and drops the
     cached response with the last block); (2) the requester, holding exactly the first `j ≥ 1` blocks, appends block `j`
     and asks for block `j+1` — or, if the block ends the body, removes its entry and hands the complete body on. -/
 theorem faultfree_progress_block2 (cfg : Cfg) (resp req : Msg) (hs : cfg.szx < 7) (hrq : isRequest req.code = true)
@@ -453,7 +455,7 @@ theorem faultfree_progress_block2 (cfg : Cfg) (resp req : Msg) (hs : cfg.szx < 7
     (hncont : resp.code ≠ codeContinue) (hrc : resp.code > codeDELETE) (hb1 : resp.block1 = none)
     (htok : resp.tok ≠ 0) (hqtok : req.tok ≠ 0) :
     (∀ (exp now : Int) (rcv : Option Entry) (app : App) (j : Nat), now ≤ exp →
-      j * sizeN cfg.szx ≤ resp.body.length → resp.body.length < 4294967296 → j < 2 ^ 20 →
+      j * sizeN cfg.szx ≤ resp.body.length → resp.body.length < 4294967296 → j < 2 ^ 20 → 0 < resp.body.length →
       handleS cfg ⟨some ⟨resp, exp⟩, rcv⟩ now (downloadReq req cfg.szx j) app =
         (if (j + 1) * sizeN cfg.szx < resp.body.length then ⟨some ⟨resp, exp⟩, rcv⟩ else ⟨none, rcv⟩,
          { reply := some (downloadBlock resp cfg.szx cfg.maxSize j) })) ∧
@@ -468,7 +470,7 @@ theorem faultfree_progress_block2 (cfg : Cfg) (resp req : Msg) (hs : cfg.szx < 7
         (handleS cfg ⟨some ⟨req, sexp⟩, some ent⟩ now (downloadBlock resp cfg.szx ms j) app).1.rcv = none ∧
         (handleS cfg ⟨some ⟨req, sexp⟩, some ent⟩ now (downloadBlock resp cfg.szx ms j) app).2.delivered =
           [{ ent.msg with body := resp.body, block2 := none, size2 := none }])) :=
-  ⟨fun exp now rcv app j h1 h2 h3 h4 => responder_round cfg resp req exp now rcv app j hs hrq hnopp hrc hqtok h1 h2 h3 h4,
+  ⟨fun exp now rcv app j h1 h2 h3 h4 h5 => responder_round cfg resp req exp now rcv app j hs hrq hnopp hrc hqtok h1 h2 h3 h4 h5,
    fun sexp ent now app ms j h1 h2 h3 h4 h5 h6 h7 =>
      requester_round cfg resp req sexp ent now app ms j hs hrq hnopp hnr hnsig hncont hb1 htok h1 h2 h3 h4 h5 h6 h7⟩
 
@@ -479,6 +481,60 @@ example : exDeliveries (World.run exWorld ([.doReq exReq] ++ List.replicate 10 (
       [(false, 2, 40, true), (true, 68, 40, true)] ∧
     exDeliveries (World.run exWorld ([.doReq exReq] ++ List.replicate 9 (.fault .deliver))).2 = [(false, 2, 40, true)] ∧
     (World.run exWorld ([.doReq exReq] ++ List.replicate 10 (.fault .deliver))).1.pending = [] := by decide
+
+/-! ## Repair F39: a continuation that arrives for a pending request without body -/
+
+/-- **bodyless_request_has_no_block** (repair F39, /repo d633604; holds once `refusesBodylessSending` is regenerated as
+    `true`).  `Do` registers every request in the sending cache, also one without body (GET, DELETE, an empty POST/PUT), which
+    it then sends as it is (1).  While such a call is pending, ANY message of the peer under its token that takes the
+    continue-sending path of `Handle` — it does not "want to be received": a 2.31 Continue, or a request-coded message with a
+    Block2 option; whatever block options, numbers and payload it carries — produces no block, no reply at all and no delivery
+    to the application: `createSendingMessage` refuses a message without body (before the repair it dereferenced the missing
+    body: a panic in the goroutine that handles the message), the `errors` callback runs, the receiving slot is untouched and
+    the sending entry of the token is dropped (2) — as after every failed continuation.  With the entry gone a later
+    block-wise response to the request is no longer paired (`processReceived`: "cannot request body without paired request",
+    4.08) and the call ends by its context: an error outcome caused by the peer's own stray message, not a wrong delivery
+    (see docs/notes/C04.md). -/
+theorem bodyless_request_has_no_block :
+    (∀ (cfg : Cfg) (snd : Option Entry) (now : Int) (r : Msg), cfg.szx ≤ 7 → r.tok ≠ 0 → r.body = [] → live snd now = none →
+      doStartS cfg snd now r = (some ⟨r, match r.deadline with | some d => d | none => never⟩, some r)) ∧
+    (∀ (cfg : Cfg) (e : Entry) (rcv : Option Entry) (now : Int) (r' : Msg) (app : App),
+      e.msg.body = [] → now ≤ e.validUntil → r'.tok ≠ 0 → wantsToBeReceived r' = false →
+      handleS cfg ⟨some e, rcv⟩ now r' app = (⟨none, rcv⟩, { err := true })) := by
+  have hfix : refusesBodylessSending = true := rfl
+  constructor
+  · intro cfg snd now r hs7 htok hbody hfree
+    unfold doStartS
+    have h7 : ¬ cfg.szx > 7 := by omega
+    have hle : doDirectIsLe = true := rfl
+    simp only [if_neg h7, if_neg htok, storeIfAbsent, hfree, Bool.false_eq_true, if_false, hbody, List.length_nil, fits, hle, if_true,
+      Nat.zero_le, decide_true]
+    cases r.deadline <;> rfl
+  · intro cfg e rcv now r' app hbody hlive htok hw
+    have hlv : live (some e) now = some e := live_fresh _ _ hlive
+    have hcont : continueSendingS cfg (some e) r' e.msg.code = none := by
+      unfold continueSendingS
+      cases r'.block (sendBT e.msg.code) with
+      | none => rfl
+      | some blk =>
+        simp only []
+        unfold createSending createSendingWith
+        cases decodeBlock blk with
+        | error _ => rfl
+        | ok v =>
+          obtain ⟨s0, n0, m0⟩ := v
+          simp only []
+          exact createSendingAt_bodyless hfix hbody _ _ _ _
+    unfold handleS
+    simp only [if_neg htok, hlv, hw, Bool.false_eq_true, if_false, hcont]
+
+/-- the pending GET of token 33 and the three shapes of the corpus case `f39_…`: a 2.31 with Block2, a 2.31 with Block1, a
+    request-coded message with Block2 — error callback, nothing on the wire, nothing handed on, the entry is gone -/
+example : (∀ r' ∈ [({ code := 95, tok := 33, block2 := some 8 } : Msg), { code := 95, tok := 33, block1 := some 8 },
+      { code := 1, tok := 33, block2 := some 16 }],
+      wantsToBeReceived r' = true ∨
+      handleS { szx := 0, maxSize := 80, expiration := 3000 } ⟨some ⟨{ code := 1, tok := 33, other := [(11, [99])] }, 20000⟩, none⟩ 5 r' (fun _ => none) =
+        (⟨none, none⟩, { err := true })) := by decide
 
 /-! ## The two observations of DESIGN §6, as negative results -/
 
@@ -533,6 +589,7 @@ open CoapVerif.Props.C04
 #print axioms system_safe
 #print axioms faultfree_progress_block1
 #print axioms faultfree_progress_block2
+#print axioms bodyless_request_has_no_block
 #print axioms oneway_block1_never_completes
 #print axioms bert_first_block_stalls
 end Audit
